@@ -8,7 +8,11 @@ namespace HostTouch
 inductive Kind where
   | read      -- invokes a protocol of the value (dunder dispatch) without changing it, if the protocol is side-effect free
   | write     -- stores into / deletes from / mutates the value: a change of the host's data
-  | pass      -- hands the value to code outside the analysed files (plugins, eval, constructors of agent records)
+  | call      -- CALLS the value (a host callable): runs host code
+  | enter     -- `with <value>`: host `__enter__` / `__exit__`
+  | arith     -- an arithmetic / unary operator dunder, abs, round, divmod, pow
+  | consume   -- `next(<value>)`: advances a host iterator
+  | pass      -- hands the value to code outside the analysed files; `proto` = "call:<callee>"
 deriving DecidableEq, Repr
 
 structure Op where
@@ -20,27 +24,43 @@ deriving DecidableEq, Repr
 
 /-- the protocols C01's quantifier assumes to be side-effect free on host objects ("objects with raising dunder methods"
     are allowed — raising is contained, see `c01_guarded` —, side effects are not): attribute read, item read, `str`,
-    `repr`, `len`, iteration, membership, comparison, truth value, `hash`, `type`/`id`/`isinstance` (no dispatch), string
-    formatting, and the read-only access methods of the built-in containers and of `str`. -/
+    `repr`, `len`, number conversion (`float()` / `int()` of a metric expression's value), iteration (which CONSUMES a
+    one-shot iterator: the collector iterates only values whose exact type name is list-like, C05 — not visible here),
+    membership, comparison, truth value, `hash`, `type`/`id`/`isinstance` (no dispatch), string formatting, and the
+    read-only access methods of the built-in containers and of `str`. -/
 def allowedReads : List String :=
-  ["getattr", "getitem", "str", "repr", "len", "iter", "contains", "eq", "bool", "hash", "type", "format",
-   "method:get", "method:keys", "method:items", "method:values", "method:startswith", "method:endswith", "method:copy"]
+  ["getattr", "getitem", "str", "repr", "len", "number", "iter", "contains", "eq", "bool", "hash", "type", "format",
+   "method:get", "method:keys", "method:items", "method:values", "method:startswith", "method:endswith", "method:copy",
+   "method:strip"]
 
-/-- methods of AGENT objects that carry a host value (the carrier over-approximation of the extractor): calling them is
-    not an operation on the host value itself -/
-def agentMethods : List String :=
-  ["method:process", "method:can_trigger", "method:action_context", "method:at_location", "method:append_variable",
-   "method:append_child", "method:check_id", "method:new_var_id", "method:add_child", "method:evaluate_expression",
-   "method:attach_result", "method:hold", "method:process_variable", "method:search_function", "method:collect",
-   "method:push_snapshot", "method:complete", "method:add_watch_result", "method:process_log", "method:format",
-   "method:vformat", "method:close", "method:process_capture_variable", "method:eval_watch", "method:has_triggered",
-   "method:record_triggered", "method:should_collect_vars", "method:is_app_frame", "method:merge_var_lookup",
-   "method:log_tracepoint", "method:decorate", "method:push_snapshot"]
+/-- methods (by bare name — a host object's method of the same name would be taken for these) of AGENT objects that
+    the analysis cannot tell from a host value read out of a carrier: the callback contexts' `process`, the push
+    service's `push_snapshot`, `BoundedAttributes.merge_in`.  Reviewed on the clean tree. -/
+def agentMethods : List String := ["method:process", "method:push_snapshot", "method:merge_in"]
+
+/-- REVIEWED callees a host-aliased value may be handed to (the `pass` rows of the clean tree, each looked at):
+    * `eval` — the tracepoint expression itself, in the frame's namespaces (the property's quantifier: side-effect free);
+    * constructors of agent records that only STORE the reference or its text: `StackFrame`, `Variable`, `VariableId`,
+      `WatchResult`, `EventSnapshot`, the five action contexts; `FormatDict(locals)` copies the dict (reads its items);
+    * appending / merging into agent containers and records (`local.*`, `self.*`, the closure variables of `process_log`);
+    * plugin callbacks that receive agent records (`decorate`, `log_tracepoint`, `push_snapshot`), C20's business;
+    * `func` = the `correct_names` callback of `process_dict_breadth_first` (texts only); `string.Formatter.vformat`;
+    * logging (formats `%s` of the value: `str`) and `os.path.basename` of a code object's file name.
+    Anything else — `operator.setitem`, `dict.update`, `exec`, ctypes, a helper in a file outside the analysed ones — is
+    NOT ok and fails `c01_host_touch_in_table`. -/
+def allowedCallees : List String :=
+  ["call:eval", "call:StackFrame", "call:Variable", "call:VariableId", "call:WatchResult", "call:EventSnapshot",
+   "call:LogActionContext", "call:MetricActionContext", "call:NoActionContext", "call:SnapshotActionContext",
+   "call:SpanActionContext", "call:FormatDict", "call:FormatExtractor().vformat", "call:func",
+   "call:local.append", "call:self.append", "call:var_ids.append", "call:watch_results.append", "call:_var_lookup.update",
+   "call:local.add_watch_result", "call:self.add_watch_result", "call:local.merge_var_lookup", "call:self.merge_var_lookup",
+   "call:local.decorate", "call:local.log_tracepoint", "call:local.merge_in", "call:local.push_snapshot",
+   "call:logging.debug", "call:logging.exception", "call:deep.logging.exception", "call:os.path.basename"]
 
 def Op.ok (o : Op) : Bool :=
   match o.kind with
-  | .write => false
-  | .pass => true
   | .read => allowedReads.contains o.proto || agentMethods.contains o.proto
+  | .pass => allowedCallees.contains o.proto
+  | _ => false
 
 end HostTouch
